@@ -143,6 +143,16 @@ def inline_single_sets(N, ast) -> int:
                     if isinstance(a.target, N.Name):
                         in_loop.add(a.target.name)
         mapping = {}
+        loop_local = {}   # name -> innermost For node that contains its single assignment (inlined inside that loop only)
+        for name in in_loop:
+            if counts.get(name) == 1 and name not in blocked:
+                inner = None
+                for n in nodes:
+                    if isinstance(n, N.For) and any(a is bound[name] for a in n.find_all(N.Assign)):
+                        if inner is None or any(x is n for x in inner.find_all(N.For)):
+                            inner = n
+                if inner is not None:
+                    loop_local[name] = inner
         for name, cnt in counts.items():
             if cnt != 1 or name in blocked or name in in_loop:
                 continue
@@ -167,6 +177,13 @@ def inline_single_sets(N, ast) -> int:
         _replace_names(N, m, mapping)
         # the defining statements keep their (now unused) right-hand sides
         total += len(mapping)
+        for name, loop in loop_local.items():
+            e = bound[name].node
+            subs = [e] + list(e.find_all(N.Node))
+            if any(isinstance(x, N.Call) for x in subs) or any(isinstance(x, N.Filter) and "unique" in x.name for x in subs):
+                continue
+            _replace_names(N, loop, {name: e})
+            total += 1
     return total
 
 
